@@ -214,6 +214,9 @@ func (r *envelopeReader) Read(env *envelope) *Error {
 	if r.readMaxBytes > 0 && size > r.readMaxBytes {
 		_, err := io.CopyN(io.Discard, r.reader, int64(size))
 		if err != nil && !errors.Is(err, io.EOF) {
+			if connectErr, ok := asError(err); ok {
+				return connectErr
+			}
 			return errorf(CodeUnknown, "read enveloped message: %w", err)
 		}
 		return errorf(CodeInvalidArgument, "message size %d is larger than configured max %d", size, r.readMaxBytes)
@@ -228,6 +231,12 @@ func (r *envelopeReader) Read(env *envelope) *Error {
 		for remaining > 0 {
 			bytesRead, err := io.CopyN(env.Data, r.reader, remaining)
 			if err != nil && !errors.Is(err, io.EOF) {
+				// The reader may already have classified the failure (for example
+				// as canceled or deadline_exceeded): keep its code, as we do for
+				// the prefix.
+				if connectErr, ok := asError(err); ok {
+					return connectErr
+				}
 				return errorf(CodeUnknown, "read enveloped message: %w", err)
 			}
 			if errors.Is(err, io.EOF) && bytesRead == 0 {
